@@ -71,7 +71,9 @@ def run_case(case):
             uu = {t: U[m] for t, m in zip(times, mem)}
             vv = {t: V[m] for t, m in zip(times, mem)}
             ss = {t: S[m] for t, m in zip(times, mem)}
-            lab.make_grid_forcing(names[k], times,
+            # storage differs from file to file: float, or packed int16 with its own scale factor
+            scale = [None, 1.0 / 16, 1.0 / 64, None, 1.0 / 32][(case["vseed"] + k) % 5]
+            lab.make_grid_forcing(names[k], times, scale_uv=scale,
                                   u=lambda t, kk, j, i, uu=uu: uu[t] + 0 * kk,
                                   v=lambda t, kk, j, i, vv=vv: vv[t] + 0 * kk,
                                   scal=dict(temp=lambda t, kk, j, i, ss=ss: ss[t] + 0 * kk) if case["scalar"] else None,
